@@ -352,6 +352,7 @@ func main() {
 		hashes["decode_amd64.s"] = fmt.Sprintf("%x", h[:8])
 	}
 	facts["hashes"] = hashes
+	facts["ties"] = sourceTies(repo)
 	// state tables
 	if root != nil {
 		for _, tn := range []string{"writerStates", "readerStates"} {
